@@ -3,8 +3,8 @@ U = "core:server"
 PROP = {
     "technique": "property-based testing (rapid): generated concurrent histories of raw QUIC/HTTP-3 clients against one real server; "
                  "happens-before predicates over an event log written by fake Authenticator/Outbound/EventLogger",
-    "level_text": "Generated-input exploration: each case starts a real server (server.NewServer on loopback) with harness fakes, opens 1-3 raw "
-                  "quic-go connections and runs 2-5 rounds of concurrently issued operations (accepted / rejected auth requests, near-miss HTTP "
+    "level_text": "Generated-input exploration: each case starts a real server (server.NewServer on loopback) with harness fakes, opens 1-6 raw "
+                  "quic-go connections (with lifetimes: connections end and fresh ones start later in the same server's life) and runs 2-6 rounds of concurrently issued operations (accepted / rejected auth requests, near-miss HTTP "
                   "requests carrying accepted credentials, raw 0x401 streams in four framings written by the harness's own encoder, complete and "
                   "fragmented UDPMessage datagrams); the fake authenticator can hold a call open while the rest of the round is delivered. The "
                   "verdict is a set of predicates over one sequence-numbered log (outbound/event-logger entries of connection c only after "
@@ -12,12 +12,12 @@ PROP = {
                   "positive checks after the accept (TCPResponse, echo, exactly one outbound call, 233 on repeated/rejected attempts). Not a proof.",
     "level_note": "Interleavings inside ServeHTTP are sampled by the Go scheduler, steered only at the authenticator call; attribution relies on "
                   "labels embedded in request addresses and tokens; the HTTP/3 layer is the real quic-go fork.",
-    "rule": "history = roles (which connections ever send an accepted auth request) x 2-5 rounds x 1-4 concurrent ops from {AuthGood, AuthBad "
+    "rule": "history = connection lifetimes (40% all connections live throughout; 60% 2-4 consecutive generations of 1-2 connections, each generation closed - client close, server-side Disconnect awaited - before the next is opened against the same server, optional spanning connection, up to 6 connections; 40% of those cases under GOMAXPROCS(1)) x roles (which connections ever send an accepted auth request) x 2-6 rounds x 1-4 concurrent ops from {AuthGood, AuthBad "
             "(empty/near-miss/absent token), OtherHTTP near-miss (optionally with a GOOD token), TCPReq (framings block/hdr/ascii/data0, varint "
             "widths, payload 0-1500, dial failure), Datagram (complete / first fragment / both fragments, session ids 1-3)}, token table 1-3, "
             "with/without TrafficLogger, held authenticator calls. Non-trivial: an accepted and a never-accepted connection both issuing proxy "
             "ops, or a reject/repeat after the accept followed by a proxy op, or a proxy op before/concurrent with the accept, or a proxy op "
-            "racing a held authenticator call on a never-accepted connection. Distinct = per-connection (round, op kind, framing/fragment mode, "
+            "racing a held authenticator call on a never-accepted connection, or a connection opened after an accepted connection was closed that proxies / sends rejected credentials without (or before) its own accept. Distinct = per-connection (round, op kind, framing/fragment mode, "
             "held) sequence.",
     "assumptions": ["loopback UDP delivers; a handshake or request that does not complete within 20 s makes the run inconclusive (exit 2), never a violation",
                     "after a barrier HTTP round trip on the same connection plus 30 ms nothing older is still in flight (silence check; expiry = pass)",
